@@ -68,6 +68,7 @@ EXT = {
         "logging.getLogger", "logging.debug", "logging.info", "logging.warning", "logging.error", "logging.exception",
         "logging.critical", "logging.log", "warnings.warn", "time.time", "time.monotonic", "time.perf_counter",
     )},
+    "object.__new__": ("pure", ()),  # a bare instance: no constructor body runs (VAL3 reports the bypass)
     "super": ("pure", ()),
     "super.__init__": ("pure", ()),  # Exception.__init__: stores args on the new object
     "super.__add__": ("pure", ()),  # tuple.__add__
